@@ -1,7 +1,9 @@
 package props
 
 import (
+	"encoding/binary"
 	"fmt"
+	"math"
 	"math/rand/v2"
 	"reflect"
 	"unsafe"
@@ -76,6 +78,64 @@ func c03codecHistory(c *core.Ctx, rc *readCase, t *gen.T, r *rand.Rand) bool {
 		rb.ExtractResourceBank().Close()
 	}
 	return true
+}
+
+// c03floatWidth: "float width" is one of the ways a compatible target may differ. A double whose magnitude is beyond
+// every float32 does not fit a float32 field: an error, not +-Inf. Doubles that are float32 values (including the
+// largest ones, the infinities and NaN) decode exactly.
+func c03floatWidth(c *core.Ctx) {
+	type tgt struct {
+		F float32 `json:"f"`
+		G int64   `json:"g"`
+		P *float32
+		S []float32 `json:"s"`
+	}
+	ls, err := avro.SchemaFromString(`{"type":"record","name":"fw","fields":[{"name":"f","type":"double"},{"name":"g","type":"long"},{"name":"P","type":["null","double"]},{"name":"s","type":{"type":"array","items":"double"}}]}`)
+	var codec avro.Codec
+	if err == nil {
+		codec, err = ls.Codec(tgt{})
+	}
+	if err != nil {
+		c.Violate("read-error", "float width: "+err.Error(), nil)
+		return
+	}
+	rb := avro.NewReadBuf(nil)
+	for _, x := range []float64{1e300, -1e300, math.MaxFloat64, -math.MaxFloat64, 2 * math.MaxFloat32, -2 * math.MaxFloat32, 1e39, math.MaxFloat32, -math.MaxFloat32, math.Inf(1), math.Inf(-1), math.NaN(), 1.5, 0, float64(math.SmallestNonzeroFloat32)} {
+		for pos := 0; pos < 3; pos++ {
+			vals := [3]float64{0.5, 0.5, 0.5}
+			vals[pos] = x
+			var in []byte
+			in = binary.LittleEndian.AppendUint64(in, math.Float64bits(vals[0]))
+			in = refavro.AppendLong(in, 7)
+			in = binary.LittleEndian.AppendUint64(refavro.AppendLong(in, 1), math.Float64bits(vals[1]))
+			in = binary.LittleEndian.AppendUint64(refavro.AppendLong(in, 1), math.Float64bits(vals[2]))
+			in = refavro.AppendLong(in, 0)
+			var v tgt
+			rb.Reset(in)
+			err := codec.Read(rb, unsafe.Pointer(&v))
+			c.Eval(1)
+			fits := math.IsInf(x, 0) || x != x || math.Abs(x) <= math.MaxFloat32
+			where := []string{"a float32 field", "a *float32 field", "a []float32 item"}[pos]
+			if !fits {
+				if err == nil {
+					c.Violate("truncation", fmt.Sprintf("the double %g does not fit %s, yet the record decodes without an error (stored %v)", x, where, [3]any{v.F, v.P, v.S}[pos]), map[string]any{"hex": fmt.Sprintf("%x", in)})
+					return
+				}
+				c.Count("float-width.misfits-refused", 1)
+				continue
+			}
+			var got float32
+			if err == nil && v.P != nil && len(v.S) == 1 {
+				got = [3]float32{v.F, *v.P, v.S[0]}[pos]
+			}
+			if err != nil || v.G != 7 || v.P == nil || len(v.S) != 1 || !(got == float32(x) || (x != x && got != got)) {
+				c.Violate("value", fmt.Sprintf("the double %g, which is a float32 value, read into %s: got %v err=%v", x, where, got, err), map[string]any{"hex": fmt.Sprintf("%x", in)})
+				return
+			}
+			rb.ExtractResourceBank().Close()
+		}
+	}
+	c.Count("float-width.scenarios", 1)
 }
 
 // projectSchema derives a writer schema that lacks some record fields of s (at any depth), and the datums to match.
